@@ -60,13 +60,15 @@ Fixpoint collect {P} (name_of : P -> string) (names : list string) (ps : list P)
 Definition sort_params_by_path {P} (name_of : P -> string) (t : template) (declared : list P) : option (list P) :=
   if Nat.eqb (List.length (vars t)) (List.length declared) then collect name_of (vars t) declared else None.
 
-(** Matching a concrete path (list of non-empty segments) against a template. *)
+(** Matching a concrete path (list of segments) against a template.  A template variable stands for a NON-EMPTY
+    segment (a path parameter is required and has a value): /pets//toys/ball does not match /pets/{id}/toys/{toy}. *)
 Fixpoint match_template (t : template) (path : list string) : option (list (string * string)) :=
   match t, path with
   | [], [] => Some []
   | SLit l :: t', s :: p' => if String.eqb l s then match_template t' p' else None
   | SVar v :: t', s :: p' =>
-      match match_template t' p' with Some b => Some ((v, s) :: b) | None => None end
+      if String.eqb s "" then None
+      else match match_template t' p' with Some b => Some ((v, s) :: b) | None => None end
   | _, _ => None
   end.
 
